@@ -3,6 +3,8 @@ serialisation shared with coq/C14/Exec.v (tied: number -> function).'''
 import contextlib
 import io
 import itertools
+import signal
+import threading
 
 SEP1, SEP2, SEP4 = '\x01', '\x02', '\x04'
 MODULUS = 2147483647
@@ -22,6 +24,38 @@ def ser_list2(items):
 
 ERRS = {IndexError: 'EIndex', ValueError: 'EValue',
         AttributeError: 'EAttribute'}
+
+
+class ImplHang(Exception):
+    '''An implementation call exceeded its time limit (a loop that does not
+    advance): reported as a disagreement / violation, never a harness crash.'''
+
+
+@contextlib.contextmanager
+def time_limit(seconds):
+    if threading.current_thread() is not threading.main_thread():
+        yield
+        return
+
+    def handler(signum, frame):
+        raise ImplHang(f'no answer within {seconds} s')
+    old = signal.signal(signal.SIGALRM, handler)
+    signal.setitimer(signal.ITIMER_REAL, seconds)
+    try:
+        yield
+    finally:
+        signal.setitimer(signal.ITIMER_REAL, 0)
+        signal.signal(signal.SIGALRM, old)
+
+
+def limited(fun, seconds=3.0):
+    def wrapper(s):
+        try:
+            with time_limit(seconds):
+                return fun(s)
+        except ImplHang:
+            return SEP4 + 'EHang'
+    return wrapper
 
 
 def guarded(fun):
@@ -236,6 +270,7 @@ FUNS = {
     18: ('opt_tokens', f_opt_tokens), 19: ('lower', f_lower),
     20: ('front', f_front), 21: ('front_all', f_front_all),
 }
+FUNS = {fid: (name, limited(fun)) for fid, (name, fun) in FUNS.items()}
 FID = {name: fid for fid, (name, _) in FUNS.items()}
 
 # module-level names of the implementation that a fine-grained tie reaches
